@@ -1,13 +1,20 @@
 // C01 — implementation side: detector pairs <-> bins, ring pairs <-> (segment, axial position)
-// on the real ProjDataInfoCylindricalNoArcCorr built by ProjDataInfo::construct_proj_data_info.
+// on the real ProjDataInfoCylindricalNoArcCorr / ProjDataInfoBlocksOnCylindricalNoArcCorr / ProjDataInfoGenericNoArcCorr
+// built by ProjDataInfo::construct_proj_data_info (ProjDataInfoCTI) and ProjDataInfo::ProjDataInfoGE, and on the same
+// objects after their sampling was changed (reduce_segment_range, set_min/max_ring_difference,
+// set_min/max_axial_pos_num, set_min/max_tangential_pos_num, set_num_tangential_poss, set_num_views, clone).
 // Usage: c01_geometry <seed> <quick|thorough> <opsfile> <implfile>
 #include "stir_fixtures.h"
 #include "common.h"
 #include "stir/Bin.h"
 #include "stir/DetectionPositionPair.h"
 #include "stir/ProjDataInfoCylindricalNoArcCorr.h"
+#include "stir/ProjDataInfoGenericNoArcCorr.h"
+#include "stir/ProjDataInfoBlocksOnCylindricalNoArcCorr.h"
 #include "stir/Succeeded.h"
 #include <algorithm>
+#include <cmath>
+#include <cstdarg>
 #include <map>
 #include <set>
 #include <tuple>
@@ -18,11 +25,30 @@ struct Cfg
 {
   int N, R, span, max_delta, views, tof_mash, tof_bins;
   std::string scanner_name; // empty: generated
-  std::string geometry;     // "" = Cylindrical
+  std::string geometry;     // "" = Cylindrical, "BlocksOnCylindrical", "Generic"
+  bool ge = false;          // ProjDataInfo::ProjDataInfoGE instead of ProjDataInfoCTI
+  // generated block scanners: transaxial buckets x blocks per bucket x crystals per block, axial blocks x crystals
+  int tb = 0, tbl = 0, tc = 0, ab = 0, ac = 0;
+  float gap = 0.F;
 };
 
 static FILE *ops, *out, *orc;
 static long oracle_checks = 0, oracle_fails = 0;
+static std::string scratch; // prefix for scratch files (crystal maps)
+
+static void
+oracle_fail(const char* fmt, ...)
+{
+  ++oracle_fails;
+  if (oracle_fails > 40)
+    return;
+  va_list ap;
+  va_start(ap, fmt);
+  std::fprintf(orc, "ORACLE-FAIL ");
+  std::vfprintf(orc, fmt, ap);
+  std::fprintf(orc, "\n");
+  va_end(ap);
+}
 
 static std::string
 bin_str(const Bin& b)
@@ -45,10 +71,6 @@ dps_str(std::vector<DP> v)
   return s.str();
 }
 
-
-#include "stir/ProjDataInfoGenericNoArcCorr.h"
-#include "stir/ProjDataInfoBlocksOnCylindricalNoArcCorr.h"
-
 // the Generic/Blocks classes have the same API without the `ignore_non_spatial_dimensions` argument
 static void
 all_pairs(const ProjDataInfoCylindricalNoArcCorr& p, std::vector<DetectionPositionPair<>>& v, const Bin& b, bool ignore)
@@ -70,67 +92,34 @@ num_pairs(const ProjDataInfoGenericNoArcCorr& p, const Bin& b, bool)
 {
   return p.get_num_det_pos_pairs_for_bin(b);
 }
-
-template <class PDI>
-static void run_cfg_t(const Cfg& c, vh::Rng& rng, bool thorough, PDI* pdi, int N, int R);
-
-static void
-run_cfg(const Cfg& c, vh::Rng& rng, bool thorough)
+static bool
+has_ignore_flag(const ProjDataInfoCylindricalNoArcCorr&)
 {
-  shared_ptr<Scanner> scanner;
-  if (!c.scanner_name.empty())
-    scanner.reset(Scanner::get_scanner_from_name(c.scanner_name));
-  else
-    scanner = vh::make_scanner(c.N, c.R, c.tof_bins);
-  if (!c.geometry.empty())
-    {
-      try
-        {
-          scanner->set_scanner_geometry(c.geometry);
-          scanner->set_up();
-        }
-      catch (...)
-        {
-          return; // this scanner cannot be used with that geometry: not a configuration the library accepts
-        }
-    }
-  const int N = scanner->get_num_detectors_per_ring();
-  const int R = scanner->get_num_rings();
-  std::fprintf(ops, "cfg %d %d %d %d %d %d\n", N, R, c.span, c.max_delta, c.views, c.tof_mash);
-  shared_ptr<ProjDataInfo> pdi0;
-  try
-    {
-      pdi0 = vh::make_pdi(scanner, c.span, c.max_delta, c.views, std::max(1, std::min(N / 2 - 1, scanner->get_max_num_non_arccorrected_bins())), false, c.tof_mash);
-    }
-  catch (...)
-    {
-      std::fprintf(out, "err\n");
-      return;
-    }
-  if (auto* cyl = dynamic_cast<ProjDataInfoCylindricalNoArcCorr*>(pdi0.get()))
-    run_cfg_t(c, rng, thorough, cyl, N, R);
-  else if (auto* gen = dynamic_cast<ProjDataInfoGenericNoArcCorr*>(pdi0.get()))
-    run_cfg_t(c, rng, thorough, gen, N, R);
-  else
-    std::fprintf(out, "err\n");
+  return true;
+}
+static bool
+has_ignore_flag(const ProjDataInfoGenericNoArcCorr&)
+{
+  return false;
 }
 
 template <class PDI>
 static void
-run_cfg_t(const Cfg& c, vh::Rng& rng, bool thorough, PDI* pdi, int N, int R)
+emit_segs(PDI* pdi)
 {
-  {
-    std::ostringstream s;
-    s << "segs " << pdi->get_min_segment_num() << " :";
-    for (int sg = pdi->get_min_segment_num(); sg <= pdi->get_max_segment_num(); ++sg)
-      s << " " << pdi->get_min_ring_difference(sg) << "," << pdi->get_max_ring_difference(sg) << "," << pdi->get_num_axial_poss(sg);
-    std::fprintf(out, "%s\n", s.str().c_str());
-  }
-  const int mash = pdi->get_view_mashing_factor();
-  const int min_t = pdi->get_min_tof_pos_num(), max_t = pdi->get_max_tof_pos_num();
-  const int tofm = pdi->get_tof_mash_factor();
+  std::ostringstream s;
+  s << "segs " << pdi->get_min_segment_num() << " :";
+  for (int sg = pdi->get_min_segment_num(); sg <= pdi->get_max_segment_num(); ++sg)
+    s << " " << pdi->get_min_ring_difference(sg) << "," << pdi->get_max_ring_difference(sg) << "," << pdi->get_num_axial_poss(sg);
+  std::fprintf(out, "%s\n", s.str().c_str());
+}
 
-  // ---- transaxial tables
+// ---- transaxial tables: (view,tang) -> detectors for all entries, all ordered detector pairs -> (view,tang,flag)
+template <class PDI>
+static void
+emit_transaxial(PDI* pdi, int N, bool thorough)
+{
+  const int mash = pdi->get_view_mashing_factor();
   const int dstride = (N > 128 && !thorough) ? 7 : (N > 400 ? 3 : 1);
   for (int v = 0; v < N / 2; v += dstride)
     for (int tp = -(N / 2) + 1; tp <= N / 2; tp += dstride)
@@ -159,11 +148,7 @@ run_cfg_t(const Cfg& c, vh::Rng& rng, bool thorough, PDI* pdi, int N, int R)
         const bool keep2 = pdi->get_view_tangential_pos_num_for_det_num_pair(v2, tp2, d2, d1);
         ++oracle_checks;
         if (v != v2 || tp != tp2 || keep == keep2 || v < 0 || v >= N / 2 / mash || tp <= -(N / 2) || tp > N / 2)
-          {
-            ++oracle_fails;
-            if (oracle_fails < 20)
-              std::fprintf(orc, "ORACLE-FAIL swap/range N=%d mash=%d d1=%d d2=%d -> (%d,%d,%d) vs (%d,%d,%d)\n", N, mash, d1, d2, v, tp, keep, v2, tp2, keep2);
-          }
+          oracle_fail("swap/range N=%d mash=%d d1=%d d2=%d -> (%d,%d,%d) vs (%d,%d,%d)", N, mash, d1, d2, v, tp, keep, v2, tp2, keep2);
         if (keep && dstride == 1)
           vt_count[std::make_pair(v, tp)]++;
       }
@@ -174,17 +159,26 @@ run_cfg_t(const Cfg& c, vh::Rng& rng, bool thorough, PDI* pdi, int N, int R)
         for (int tp = -(N / 2) + 1; tp < N / 2; ++tp)
           {
             ++oracle_checks;
-            const int expect = mash;
-            if (vt_count[std::make_pair(v, tp)] != expect)
-              {
-                ++oracle_fails;
-                if (oracle_fails < 20)
-                  std::fprintf(orc, "ORACLE-FAIL transaxial count N=%d mash=%d view=%d tang=%d count=%d\n", N, mash, v, tp, vt_count[std::make_pair(v, tp)]);
-              }
+            if (vt_count[std::make_pair(v, tp)] != mash)
+              oracle_fail("transaxial count N=%d mash=%d view=%d tang=%d count=%d", N, mash, v, tp, vt_count[std::make_pair(v, tp)]);
           }
     }
+}
 
-  // ---- axial tables: every ring pair, every (segment, axial position)
+struct AxialResult
+{
+  bool mismatch = false;       // listed ring pairs != assigned ring pairs for some in-range (segment, axial position)
+  bool out_of_range = false;   // a covered ring pair is assigned to an axial position outside the segment's range
+  std::set<int> bad_segments;  // segments with a mismatch
+  std::set<int> oor_segments;  // segments with an out-of-range assignment
+};
+
+// ---- axial tables: every ring pair, every (segment, axial position) of the current sampling
+template <class PDI>
+static AxialResult
+emit_axial(PDI* pdi, int R)
+{
+  AxialResult res;
   std::map<std::pair<int, int>, std::set<std::pair<int, int>>> assigned;
   for (int r1 = 0; r1 < R; ++r1)
     for (int r2 = 0; r2 < R; ++r2)
@@ -199,20 +193,21 @@ run_cfg_t(const Cfg& c, vh::Rng& rng, bool thorough, PDI* pdi, int N, int R)
           }
         else
           std::fprintf(out, "none\n");
-        // ORACLE: a covered ring difference must be assigned
+        // ORACLE: a ring pair is assigned iff its ring difference is covered by a segment
         ++oracle_checks;
         bool covered = false;
         for (int sg = pdi->get_min_segment_num(); sg <= pdi->get_max_segment_num(); ++sg)
           if (r2 - r1 >= pdi->get_min_ring_difference(sg) && r2 - r1 <= pdi->get_max_ring_difference(sg))
-            covered = true;
+            {
+              covered = true;
+              // ... and to that segment
+              if (ok && s != sg)
+                oracle_fail("ring pair (%d,%d) of ring difference %d assigned to segment %d, covered by segment %d", r1, r2, r2 - r1, s, sg);
+              break;
+            }
         if (covered != ok)
-          {
-            ++oracle_fails;
-            std::fprintf(orc, "ORACLE-FAIL ring pair (%d,%d) covered=%d assigned=%d\n", r1, r2, covered, ok);
-          }
+          oracle_fail("ring pair (%d,%d) covered=%d assigned=%d", r1, r2, covered, ok);
       }
-  bool axial_mismatch = false;
-  std::set<int> bad_segments;
   for (int s = pdi->get_min_segment_num(); s <= pdi->get_max_segment_num(); ++s)
     for (int a = pdi->get_min_axial_pos_num(s); a <= pdi->get_max_axial_pos_num(s); ++a)
       {
@@ -230,8 +225,8 @@ run_cfg_t(const Cfg& c, vh::Rng& rng, bool thorough, PDI* pdi, int N, int R)
         if (listed.size() != v.size() || listed != assigned[std::make_pair(s, a)]
             || pdi->get_num_ring_pairs_for_segment_axial_pos_num(s, a) != v.size())
           {
-            axial_mismatch = true;
-            bad_segments.insert(s);
+            res.mismatch = true;
+            res.bad_segments.insert(s);
           }
       }
   // ring pairs assigned to an axial position outside the segment's range
@@ -241,35 +236,21 @@ run_cfg_t(const Cfg& c, vh::Rng& rng, bool thorough, PDI* pdi, int N, int R)
       ++oracle_checks;
       if (a < pdi->get_min_axial_pos_num(s) || a > pdi->get_max_axial_pos_num(s))
         {
-          axial_mismatch = true;
-          bad_segments.insert(s);
+          res.out_of_range = true;
+          res.oor_segments.insert(s);
         }
     }
-  std::fprintf(ops, "wf\n");
-  std::fprintf(out, "%d\n", axial_mismatch ? 0 : 1);
-  if (axial_mismatch)
-    {
-      ++oracle_fails;
-      // class of the known finding: only outermost segments, clipped by max_delta to ONE ring difference d
-      // while span > 1, with (num_rings - 1 - |d|) odd.  Anything else gets a configuration-specific key.
-      bool in_class = c.span > 1;
-      for (int s : bad_segments)
-        {
-          const int d = pdi->get_min_ring_difference(s);
-          if (!(std::abs(s) == pdi->get_max_segment_num() && pdi->get_min_ring_difference(s) == pdi->get_max_ring_difference(s)
-                && std::abs(d) == c.max_delta && (R - 1 - std::abs(d)) % 2 != 0))
-            in_class = false;
-        }
-      if (in_class)
-        std::fprintf(orc, "KNOWN-CANDIDATE ringpairs:outermost-segment-clipped-to-single-ring-difference-of-odd-parity ring pairs of the clipped outermost segment are assigned to axial positions by truncating division while get_all_ring_pairs_for_segment_axial_pos_num lists none (first seen: rings=%d span=%d max_delta=%d)\n",
-                     R, c.span, c.max_delta);
-      else
-        std::fprintf(orc, "KNOWN-CANDIDATE ringpairs:R=%d:span=%d:maxdelta=%d ring pairs assigned to (segment,axial pos) differ from the lists reported by get_all_ring_pairs_for_segment_axial_pos_num\n",
-                     R, c.span, c.max_delta);
-    }
+  return res;
+}
 
-  // ---- full bins: a seeded sample of detector-position pairs and of bins
-  const int nsample = thorough ? 3000 : 600;
+// ---- full bins: a seeded sample of detector-position pairs and of the bins they fall into
+template <class PDI>
+static void
+emit_bins(PDI* pdi, vh::Rng& rng, int N, int R, int nsample, bool skip_lists, bool history, long list_budget)
+{
+  const int mash = pdi->get_view_mashing_factor();
+  const int min_t = pdi->get_min_tof_pos_num(), max_t = pdi->get_max_tof_pos_num();
+  const int tofm = pdi->get_tof_mash_factor();
   for (int k = 0; k < nsample; ++k)
     {
       DetectionPositionPair<> dp;
@@ -287,7 +268,20 @@ run_cfg_t(const Cfg& c, vh::Rng& rng, bool thorough, PDI* pdi, int N, int R)
       const bool ok = pdi->get_bin_for_det_pos_pair(b, dp) == Succeeded::yes;
       std::fprintf(ops, "d2b %d %d %d %d %d\n", d1, r1, d2, r2, t);
       std::fprintf(out, "%s\n", ok ? bin_str(b).c_str() : "none");
-      if (!ok || axial_mismatch)
+      if (!ok)
+        continue;
+      const bool in_range = b.segment_num() >= pdi->get_min_segment_num() && b.segment_num() <= pdi->get_max_segment_num()
+                            && b.axial_pos_num() >= pdi->get_min_axial_pos_num(b.segment_num())
+                            && b.axial_pos_num() <= pdi->get_max_axial_pos_num(b.segment_num())
+                            && b.tangential_pos_num() >= pdi->get_min_tangential_pos_num()
+                            && b.tangential_pos_num() <= pdi->get_max_tangential_pos_num() && b.view_num() >= pdi->get_min_view_num()
+                            && b.view_num() <= pdi->get_max_view_num();
+      if (history)
+        {
+          std::fprintf(ops, "inr %s\n", bin_str(b).c_str());
+          std::fprintf(out, "%d\n", in_range ? 1 : 0);
+        }
+      if (skip_lists)
         continue;
       // ORACLE: exchanging the two detectors gives the same spatial bin with the TOF index negated
       DetectionPositionPair<> dps(dp);
@@ -297,13 +291,66 @@ run_cfg_t(const Cfg& c, vh::Rng& rng, bool thorough, PDI* pdi, int N, int R)
       Bin bs;
       ++oracle_checks;
       if (pdi->get_bin_for_det_pos_pair(bs, dps) != Succeeded::yes || !(bs == b))
-        {
-          ++oracle_fails;
-          std::fprintf(orc, "ORACLE-FAIL swapped pair gives another bin: %d %d %d %d %d\n", d1, r1, d2, r2, t);
-        }
-      if (b.tangential_pos_num() < pdi->get_min_tangential_pos_num() || b.tangential_pos_num() > pdi->get_max_tangential_pos_num())
+        oracle_fail("swapped pair gives another bin: %d %d %d %d %d", d1, r1, d2, r2, t);
+      if (!in_range)
         continue;
       // the bin's own list
+      const unsigned reported = num_pairs(*pdi, b, false);
+      if (tofm > 0 && tofm % 2 == 0)
+        {
+          // even TOF mashing factor: the unchanged get_all_det_pos_pairs_for_bin(.., false) writes tofm+1 timing positions
+          // per spatial pair into a vector sized for tofm (only an assert guards it), so it is called only when the
+          // library reports tofm-1 timing positions for the central TOF bin (i.e. follows get_bin_for_det_pos_pair);
+          // the reported count is compared with the number of unmashed timing positions that are assigned to the bin
+          const unsigned reported0 = num_pairs(*pdi, b, true);
+          std::set<int> assigned_ts;
+          for (int tt = t - 2 * tofm; tt <= t + 2 * tofm; ++tt)
+            {
+              DetectionPositionPair<> q(dp);
+              q.timing_pos() = tt;
+              Bin bq;
+              if (pdi->get_bin_for_det_pos_pair(bq, q) == Succeeded::yes && bq == b)
+                assigned_ts.insert(tt);
+            }
+          ++oracle_checks;
+          if (reported0 == 0 || reported != reported0 * assigned_ts.size())
+            {
+              ++oracle_fails;
+              static int shown = 0;
+              if (shown++ < 3)
+                std::fprintf(orc, "KNOWN-CANDIDATE tofmash:even-factor even TOF mashing factor %d: get_num_det_pos_pairs_for_bin reports %u unmashed timing positions per spatial pair for TOF bin %d while get_bin_for_det_pos_pair (round half away from zero) assigns %zu to it; get_all_det_pos_pairs_for_bin is not called: it would write factor+1 entries per spatial pair into a vector sized for factor (guarded by an assert only)\n",
+                             tofm, reported0 ? reported / reported0 : 0, b.timing_pos_num(), assigned_ts.size());
+              continue;
+            }
+          Bin b0(b);
+          b0.timing_pos_num() = 0;
+          if (num_pairs(*pdi, b0, false) != num_pairs(*pdi, b0, true) * (unsigned)(tofm - 1))
+            continue;
+          // ORACLE only (the Lean model transcribes the unchanged code): the list is exactly spatial pairs x assigned timing positions
+          std::vector<DetectionPositionPair<>> all, all0;
+          all_pairs(*pdi, all, b, false);
+          all_pairs(*pdi, all0, b, true);
+          std::set<DP> got, want;
+          for (auto& q : all)
+            got.insert(DP(q.pos1().tangential_coord(), q.pos1().axial_coord(), q.pos2().tangential_coord(), q.pos2().axial_coord(), q.timing_pos()));
+          const bool dp_listed_as_is = [&] {
+            for (auto& q : all0)
+              if (q.pos1() == dp.pos1() && q.pos2() == dp.pos2())
+                return true;
+            return false;
+          }();
+          for (auto& q : all0)
+            for (int tt : assigned_ts)
+              want.insert(DP(q.pos1().tangential_coord(), q.pos1().axial_coord(), q.pos2().tangential_coord(), q.pos2().axial_coord(), dp_listed_as_is ? tt : -tt));
+          ++oracle_checks;
+          if (got != want || all.size() != reported || got.size() != all.size())
+            oracle_fail("even TOF mashing factor %d: bin list inexact (n=%zu distinct=%zu expected=%zu reported=%u) bin %s", tofm, all.size(), got.size(), want.size(), reported,
+                        bin_str(b).c_str());
+          continue;
+        }
+      if (reported > list_budget)
+        continue;
+      list_budget -= reported;
       std::vector<DetectionPositionPair<>> all;
       all_pairs(*pdi, all, b, false);
       std::vector<DP> lst;
@@ -319,17 +366,44 @@ run_cfg_t(const Cfg& c, vh::Rng& rng, bool thorough, PDI* pdi, int N, int R)
             found = true;
         }
       std::fprintf(ops, "pairs %s\n", bin_str(b).c_str());
-      std::fprintf(out, "%u | %s\n", num_pairs(*pdi, b, false), dps_str(lst).c_str());
+      std::fprintf(out, "%u | %s\n", reported, dps_str(lst).c_str());
       ++oracle_checks;
       std::set<DP> uniq(lst.begin(), lst.end());
-      if (!found || !sound || uniq.size() != lst.size() || lst.size() != num_pairs(*pdi, b, false))
+      if (!found || !sound || uniq.size() != lst.size() || lst.size() != reported)
+        oracle_fail("bin list inexact (found=%d sound=%d n=%zu reported=%u) for pair %d %d %d %d %d bin %s", found, sound, lst.size(),
+                    reported, d1, r1, d2, r2, t, bin_str(b).c_str());
+      // the spatial list (ignore_non_spatial_dimensions = true): one entry per unmashed view and ring pair, with its own count
+      if (has_ignore_flag(*pdi))
         {
-          ++oracle_fails;
-          std::fprintf(orc, "ORACLE-FAIL bin list inexact (found=%d sound=%d n=%zu reported=%u) for pair %d %d %d %d %d bin %s\n", found, sound,
-                       lst.size(), num_pairs(*pdi, b, false), d1, r1, d2, r2, t, bin_str(b).c_str());
+          const unsigned reported0 = num_pairs(*pdi, b, true);
+          std::vector<DetectionPositionPair<>> all0;
+          all_pairs(*pdi, all0, b, true);
+          std::vector<DP> lst0;
+          std::set<std::tuple<int, int, int, int>> spatial0, spatial;
+          bool sound0 = true;
+          for (auto& q : all0)
+            {
+              lst0.push_back(DP(q.pos1().tangential_coord(), q.pos1().axial_coord(), q.pos2().tangential_coord(), q.pos2().axial_coord(), q.timing_pos()));
+              spatial0.insert(std::make_tuple((int)q.pos1().tangential_coord(), (int)q.pos1().axial_coord(), (int)q.pos2().tangential_coord(), (int)q.pos2().axial_coord()));
+              Bin bq;
+              if (pdi->get_bin_for_det_pos_pair(bq, q) != Succeeded::yes || bq.segment_num() != b.segment_num() || bq.view_num() != b.view_num()
+                  || bq.axial_pos_num() != b.axial_pos_num() || bq.tangential_pos_num() != b.tangential_pos_num())
+                sound0 = false;
+            }
+          for (auto& q : lst)
+            spatial.insert(std::make_tuple(std::get<0>(q), std::get<1>(q), std::get<2>(q), std::get<3>(q)));
+          std::fprintf(ops, "pairs0 %s\n", bin_str(b).c_str());
+          std::fprintf(out, "%u | %s\n", reported0, dps_str(lst0).c_str());
+          // ORACLE: reported spatial count = size of the spatial list = number of distinct spatial pairs of the full list;
+          // full count = spatial count x TOF mashing factor; the spatial parts agree; every entry falls into the bin's spatial part
+          ++oracle_checks;
+          if (lst0.size() != reported0 || spatial0.size() != lst0.size() || spatial0 != spatial || !sound0
+              || (long)reported0 * std::max(1, tofm) != (long)reported)
+            oracle_fail("spatial bin list inexact (n0=%zu reported0=%u distinct0=%zu distinct=%zu reported=%u tofmash=%d sound=%d) bin %s", lst0.size(),
+                        reported0, spatial0.size(), spatial.size(), reported, tofm, sound0, bin_str(b).c_str());
         }
       // uncompressed: bin -> pair -> bin
-      if (c.span == 1 && mash == 1 && tofm <= 1)
+      if (pdi->get_min_ring_difference(b.segment_num()) == pdi->get_max_ring_difference(b.segment_num()) && mash == 1 && tofm <= 1)
         {
           DetectionPositionPair<> back;
           pdi->get_det_pos_pair_for_bin(back, b);
@@ -339,26 +413,606 @@ run_cfg_t(const Cfg& c, vh::Rng& rng, bool thorough, PDI* pdi, int N, int R)
                        (int)back.pos2().axial_coord(), (int)back.timing_pos());
           ++oracle_checks;
           if (pdi->get_bin_for_det_pos_pair(b2, back) != Succeeded::yes || !(b2 == b))
-            {
-              ++oracle_fails;
-              std::fprintf(orc, "ORACLE-FAIL uncompressed bin->pair->bin not identity for bin %s\n", bin_str(b).c_str());
-            }
+            oracle_fail("uncompressed bin->pair->bin not identity for bin %s", bin_str(b).c_str());
         }
     }
 }
 
-// history: the lazily built tables must not remember the sampling that was in force when they were built
-static void
-run_history(const Cfg& c, vh::Rng& rng)
+// user-defined scanner made of blocks: tb transaxial buckets of tbl blocks of tc crystals, one axial bucket of ab blocks of ac crystals
+static shared_ptr<Scanner>
+make_block_scanner(const Cfg& c, const std::string& geometry, const std::string& crystal_map)
 {
+  const int N = c.tb * c.tbl * c.tc, R = c.ab * c.ac;
+  const float cs = 2.F;                                     // crystal spacing
+  const float tbs = c.tc * cs + c.gap, abs_ = c.ac * cs + c.gap; // block spacings
+  // the blocks of one bucket form one side of a regular polygon with tb sides around the inner radius
+  const float side = tbs * c.tbl;
+  const float radius = static_cast<float>(side / (2 * std::tan(_PI / c.tb)));
+  shared_ptr<Scanner> s(new Scanner(Scanner::User_defined_scanner,
+                                    std::string("verif_blocks"),
+                                    N,
+                                    R,
+                                    std::max(1, N / 2 - 1),
+                                    std::max(1, N / 2 - 1),
+                                    radius,
+                                    /*average_depth_of_interaction*/ 1.F,
+                                    /*ring_spacing*/ abs_ * c.ab / R,
+                                    /*bin_size*/ 1.F,
+                                    /*intrinsic_tilt*/ 0.F,
+                                    c.ab,
+                                    c.tbl,
+                                    c.ac,
+                                    c.tc,
+                                    1,
+                                    1,
+                                    1,
+                                    0.1F,
+                                    511.F,
+                                    /*max_num_of_timing_poss*/ static_cast<short>(1),
+                                    0.F,
+                                    0.F,
+                                    geometry,
+                                    /*axial_crystal_spacing*/ cs,
+                                    /*transaxial_crystal_spacing*/ cs,
+                                    /*axial_block_spacing*/ abs_,
+                                    /*transaxial_block_spacing*/ tbs,
+                                    crystal_map));
+  return s;
+}
+
+static shared_ptr<Scanner>
+make_cfg_scanner(const Cfg& c, bool& refused)
+{
+  refused = false;
+  shared_ptr<Scanner> scanner;
+  if (c.tb > 0)
+    {
+      // generated block scanner; "Generic": the same detector positions read back from a crystal map file
+      scanner = make_block_scanner(c, "BlocksOnCylindrical", "");
+      if (c.geometry == "Generic")
+        {
+          const std::string fn = scratch + ".crystalmap";
+          {
+            std::ofstream f(fn.c_str());
+            f << "# ax,tang,z,y,x\n";
+            for (int a = 0; a < scanner->get_num_rings(); ++a)
+              for (int t = 0; t < scanner->get_num_detectors_per_ring(); ++t)
+                {
+                  const CartesianCoordinate3D<float> p = scanner->get_coordinate_for_det_pos(DetectionPosition<>(t, a, 0));
+                  char buf[200];
+                  std::snprintf(buf, sizeof buf, "%d,%d,%.6f,%.6f,%.6f\n", a, t, p.z(), p.y(), p.x());
+                  f << buf;
+                }
+          }
+          scanner = make_block_scanner(c, "Generic", fn);
+        }
+      return scanner;
+    }
   if (!c.scanner_name.empty())
+    scanner.reset(Scanner::get_scanner_from_name(c.scanner_name));
+  else
+    scanner = vh::make_scanner(c.N, c.R, c.tof_bins);
+  if (!c.geometry.empty())
+    {
+      try
+        {
+          scanner->set_scanner_geometry(c.geometry);
+          scanner->set_up();
+        }
+      catch (...)
+        {
+          // a predefined cylindrical scanner without block spacings: Scanner::check_consistency documents the refusal
+          // ("BlocksOnCylindrical geometry needs the block and bucket info to be set" / "inconsistent ... spacing")
+          refused = true;
+        }
+    }
+  return scanner;
+}
+
+static shared_ptr<ProjDataInfo>
+construct(const Cfg& c, const shared_ptr<Scanner>& scanner, int num_tang)
+{
+  if (c.ge)
+    return shared_ptr<ProjDataInfo>(ProjDataInfo::ProjDataInfoGE(scanner, c.max_delta, c.views, num_tang, false, c.tof_mash));
+  return vh::make_pdi(scanner, c.span, c.max_delta, c.views, num_tang, false, c.tof_mash);
+}
+
+static void
+emit_cfg(const Cfg& c, int N, int R)
+{
+  if (c.ge)
+    std::fprintf(ops, "cfgge %d %d %d %d %d\n", N, R, c.max_delta, c.views, c.tof_mash);
+  else
+    std::fprintf(ops, "cfg %d %d %d %d %d %d\n", N, R, c.span, c.max_delta, c.views, c.tof_mash);
+}
+
+// class of the known finding: only outermost segments, clipped by max_delta to ONE ring difference d
+// while span > 1, with (num_rings - 1 - |d|) odd
+template <class PDI>
+static bool
+in_known_class(const Cfg& c, PDI* pdi, int R, const std::set<int>& bad_segments, int max_seg_at_construction)
+{
+  bool in_class = c.span > 1 && !c.ge;
+  for (int s : bad_segments)
+    {
+      const int d = pdi->get_min_ring_difference(s);
+      if (!(std::abs(s) == max_seg_at_construction && pdi->get_min_ring_difference(s) == pdi->get_max_ring_difference(s)
+            && std::abs(d) == c.max_delta && (R - 1 - std::abs(d)) % 2 != 0))
+        in_class = false;
+    }
+  return in_class;
+}
+
+template <class PDI>
+static void run_cfg_t(const Cfg& c, vh::Rng& rng, bool thorough, PDI* pdi, int N, int R);
+
+static void
+run_cfg(const Cfg& c, vh::Rng& rng, bool thorough)
+{
+  bool refused;
+  shared_ptr<Scanner> scanner = make_cfg_scanner(c, refused);
+  if (refused)
+    {
+      // only a cylindrical scanner without block information may be refused
+      ++oracle_checks;
+      if (c.scanner_name != "ECAT 953")
+        oracle_fail("scanner %s refused geometry %s", c.scanner_name.c_str(), c.geometry.c_str());
+      return;
+    }
+  const int N = scanner->get_num_detectors_per_ring();
+  const int R = scanner->get_num_rings();
+  emit_cfg(c, N, R);
+  shared_ptr<ProjDataInfo> pdi0;
+  const int num_tang = std::max(1, std::min(N / 2 - 1, scanner->get_max_num_non_arccorrected_bins()));
+  try
+    {
+      pdi0 = construct(c, scanner, num_tang);
+    }
+  catch (...)
+    {
+      std::fprintf(out, "err\n");
+      return;
+    }
+  if (auto* cyl = dynamic_cast<ProjDataInfoCylindricalNoArcCorr*>(pdi0.get()))
+    {
+      if (!c.geometry.empty())
+        oracle_fail("geometry %s gave a ProjDataInfoCylindricalNoArcCorr", c.geometry.c_str());
+      run_cfg_t(c, rng, thorough, cyl, N, R);
+    }
+  else if (auto* gen = dynamic_cast<ProjDataInfoGenericNoArcCorr*>(pdi0.get()))
+    {
+      ++oracle_checks;
+      const bool is_blocks = dynamic_cast<ProjDataInfoBlocksOnCylindricalNoArcCorr*>(pdi0.get()) != 0;
+      if ((c.geometry == "BlocksOnCylindrical") != is_blocks)
+        oracle_fail("geometry %s gave the wrong ProjDataInfo class", c.geometry.c_str());
+      run_cfg_t(c, rng, thorough, gen, N, R);
+      // view mashing is documented as unsupported by these classes: the constructor must refuse it
+      if (N % 4 == 0)
+        {
+          ++oracle_checks;
+          bool threw = false;
+          try
+            {
+              Cfg c2(c);
+              c2.views = N / 4;
+              construct(c2, scanner, num_tang);
+            }
+          catch (...)
+            {
+              threw = true;
+            }
+          if (!threw)
+            oracle_fail("Blocks/Generic ProjDataInfo accepted view mashing (N=%d views=%d)", N, N / 4);
+        }
+    }
+  else
+    std::fprintf(out, "err\n");
+}
+
+template <class PDI>
+static void
+run_cfg_t(const Cfg& c, vh::Rng& rng, bool thorough, PDI* pdi, int N, int R)
+{
+  emit_segs(pdi);
+  std::fprintf(ops, "ntang %d\n", pdi->get_num_tangential_poss());
+  std::fprintf(out, "%d %d\n", pdi->get_min_tangential_pos_num(), pdi->get_max_tangential_pos_num());
+  emit_transaxial(pdi, N, thorough);
+  const AxialResult ax = emit_axial(pdi, R);
+  const bool axial_mismatch = ax.mismatch || ax.out_of_range;
+  std::fprintf(ops, "wf\n");
+  std::fprintf(out, "%d\n", axial_mismatch ? 0 : 1);
+  if (axial_mismatch)
+    {
+      ++oracle_fails;
+      std::set<int> bad(ax.bad_segments);
+      bad.insert(ax.oor_segments.begin(), ax.oor_segments.end());
+      if (in_known_class(c, pdi, R, bad, pdi->get_max_segment_num()))
+        std::fprintf(orc, "KNOWN-CANDIDATE ringpairs:outermost-segment-clipped-to-single-ring-difference-of-odd-parity ring pairs of the clipped outermost segment are assigned to axial positions by truncating division while get_all_ring_pairs_for_segment_axial_pos_num lists none (first seen: rings=%d span=%d max_delta=%d)\n",
+                     R, c.span, c.max_delta);
+      else
+        std::fprintf(orc, "KNOWN-CANDIDATE ringpairs:R=%d:span=%d:maxdelta=%d:ge=%d ring pairs assigned to (segment,axial pos) differ from the lists reported by get_all_ring_pairs_for_segment_axial_pos_num\n",
+                     R, c.span, c.max_delta, c.ge ? 1 : 0);
+    }
+  emit_bins(pdi, rng, N, R, thorough ? 3000 : 600, axial_mismatch, false, thorough ? 400000 : 60000);
+}
+
+// ---- history: the lazily built tables must follow the sampling, whatever was in force when they were built
+struct History
+{
+  const Cfg& c;
+  vh::Rng& rng;
+  int N, R;
+  int max_seg0;            // largest segment number at construction
+  std::set<int> touched;   // segments whose ring differences / axial range were changed by a setter
+  bool clipped = false;    // an axial range was shortened, or ring differences were added: ring pairs may fall outside the axial range
+
+  void emit_state(ProjDataInfoCylindricalNoArcCorr& q)
+  {
+    std::ostringstream s;
+    s << q.get_min_segment_num() << " :";
+    for (int sg = q.get_min_segment_num(); sg <= q.get_max_segment_num(); ++sg)
+      s << " " << q.get_min_ring_difference(sg) << "," << q.get_max_ring_difference(sg) << "," << q.get_min_axial_pos_num(sg) << ","
+        << q.get_max_axial_pos_num(sg);
+    s << " | tang " << q.get_min_tangential_pos_num() << " " << q.get_max_tangential_pos_num() << " | mash " << q.get_view_mashing_factor();
+    std::fprintf(ops, "state\n");
+    std::fprintf(out, "%s\n", s.str().c_str());
+  }
+
+  // does the rebuild of the lazy tables succeed?
+  bool emit_init(ProjDataInfoCylindricalNoArcCorr& q)
+  {
+    bool ok = true;
+    try
+      {
+        (void)q.get_m(Bin(q.get_min_segment_num(), 0, 0, 0));
+      }
+    catch (...)
+      {
+        ok = false;
+      }
+    std::fprintf(ops, "init\n");
+    std::fprintf(out, "%s\n", ok ? "ok" : "err");
+    return ok;
+  }
+
+  // the tables cannot be built: ring pairs outside the outermost ring differences are still answered, the others raise the error
+  void probe_error_state(ProjDataInfoCylindricalNoArcCorr& q)
+  {
+    for (int k = 0; k < 12; ++k)
+      {
+        const int r1 = rng.range(0, R - 1), r2 = rng.range(0, R - 1);
+        std::fprintf(ops, "rp2sa %d %d\n", r1, r2);
+        try
+          {
+            int s, a;
+            if (q.get_segment_axial_pos_num_for_ring_pair(s, a, r1, r2) == Succeeded::yes)
+              std::fprintf(out, "%d %d\n", s, a);
+            else
+              std::fprintf(out, "none\n");
+          }
+        catch (...)
+          {
+            std::fprintf(out, "err\n");
+          }
+      }
+  }
+
+  // all ordered detector pairs: (view,tang,flag), and every in-range (view,tang) collects `mash` unswapped pairs, each listed by its bin
+  void check_transaxial(ProjDataInfoCylindricalNoArcCorr& q)
+  {
+    const int mash = q.get_view_mashing_factor();
+    std::map<std::pair<int, int>, int> vt_count;
+    const int stride = N > 48 ? 5 : 1;
+    for (int d1 = 0; d1 < N; ++d1)
+      for (int d2 = 0; d2 < N; ++d2)
+        {
+          if (d1 == d2)
+            continue;
+          int v, tp;
+          const bool keep = q.get_view_tangential_pos_num_for_det_num_pair(v, tp, d1, d2);
+          if ((d1 * N + d2) % 7 == 0)
+            {
+              std::fprintf(ops, "dv %d %d\n", d1, d2);
+              std::fprintf(out, "%d %d %d\n", v, tp, keep ? 1 : 0);
+            }
+          ++oracle_checks;
+          if (v < 0 || v >= q.get_num_views() || tp <= -(N / 2) || tp > N / 2)
+            {
+              oracle_fail("after changing the sampling (views=%d) detector pair (%d,%d) has view %d tang %d", q.get_num_views(), d1, d2, v, tp);
+              continue;
+            }
+          if (keep)
+            vt_count[std::make_pair(v, tp)]++;
+          if (tp < q.get_min_tangential_pos_num() || tp > q.get_max_tangential_pos_num() || ((d1 + d2) % stride) != 0)
+            continue;
+          // ORACLE: the bin found for a pair lists that pair (or its exchange) among its own pairs
+          DetectionPositionPair<> dp;
+          dp.pos1().tangential_coord() = d1;
+          dp.pos2().tangential_coord() = d2;
+          dp.pos1().axial_coord() = 0;
+          dp.pos2().axial_coord() = 0;
+          dp.timing_pos() = 0;
+          Bin b;
+          if (q.get_bin_for_det_pos_pair(b, dp) != Succeeded::yes || b.segment_num() < q.get_min_segment_num() || b.segment_num() > q.get_max_segment_num()
+              || b.axial_pos_num() < q.get_min_axial_pos_num(b.segment_num()) || b.axial_pos_num() > q.get_max_axial_pos_num(b.segment_num()))
+            continue;
+          std::vector<DetectionPositionPair<>> all;
+          q.get_all_det_pos_pairs_for_bin(all, b, true);
+          bool found = false;
+          for (auto& x : all)
+            if ((x.pos1() == dp.pos1() && x.pos2() == dp.pos2()) || (x.pos1() == dp.pos2() && x.pos2() == dp.pos1()))
+              found = true;
+          ++oracle_checks;
+          if (!found && !touched.count(b.segment_num()))
+            oracle_fail("after changing the sampling (views=%d tang=%d..%d) the bin %s of detector pair (%d,%d) in ring 0 does not list the pair", q.get_num_views(),
+                        q.get_min_tangential_pos_num(), q.get_max_tangential_pos_num(), bin_str(b).c_str(), d1, d2);
+        }
+    for (int v = 0; v < q.get_num_views(); ++v)
+      for (int tp = std::max(q.get_min_tangential_pos_num(), -(N / 2) + 1); tp <= std::min(q.get_max_tangential_pos_num(), N / 2 - 1); ++tp)
+        {
+          ++oracle_checks;
+          if (vt_count[std::make_pair(v, tp)] != mash)
+            oracle_fail("after changing the sampling: transaxial count N=%d mash=%d view=%d tang=%d count=%d", N, mash, v, tp, vt_count[std::make_pair(v, tp)]);
+        }
+  }
+
+  // everything the property states, on the current sampling of q
+  void check(ProjDataInfoCylindricalNoArcCorr& q, int nbins)
+  {
+    emit_state(q);
+    if (!emit_init(q))
+      {
+        oracle_fail("the lazy tables cannot be built for a sampling the generator considers legal");
+        return;
+      }
+    check_transaxial(q);
+    const AxialResult ax = emit_axial(&q, R);
+    std::fprintf(ops, "wfh\n");
+    std::fprintf(out, "%d\n", ax.mismatch ? 0 : 1);
+    // out-of-range assignments are what shortening an axial range means; for segments no setter touched they are a defect
+    std::set<int> bad(ax.bad_segments);
+    if (!clipped)
+      bad.insert(ax.oor_segments.begin(), ax.oor_segments.end());
+    else
+      for (int s : ax.oor_segments)
+        if (!touched.count(s))
+          bad.insert(s);
+    if (!bad.empty())
+      {
+        ++oracle_fails;
+        bool untouched = true, parity = true;
+        for (int s : bad)
+          {
+            if (touched.count(s))
+              untouched = false;
+            // the library's own "LORs shifted with respect to the physical rings" condition
+            const int d = q.get_min_ring_difference(s);
+            const int off = (R - 1) - (q.get_max_axial_pos_num(s) + q.get_min_axial_pos_num(s));
+            if (!(d == q.get_max_ring_difference(s) && (d - off) % 2 != 0))
+              parity = false;
+          }
+        if (untouched && in_known_class(c, &q, R, bad, max_seg0))
+          std::fprintf(orc, "KNOWN-CANDIDATE ringpairs:outermost-segment-clipped-to-single-ring-difference-of-odd-parity ring pairs of the clipped outermost segment are assigned to axial positions by truncating division while get_all_ring_pairs_for_segment_axial_pos_num lists none (first seen: rings=%d span=%d max_delta=%d, after changing the sampling)\n",
+                       R, c.span, c.max_delta);
+        else if (!untouched && parity)
+          std::fprintf(orc, "KNOWN-CANDIDATE ringpairs:setters-leave-single-ring-difference-segment-with-axial-range-of-odd-parity after set_min/max_axial_pos_num or set_min/max_ring_difference a segment consists of ONE ring difference d with (d - (num_rings-1) + min_axial_pos+max_axial_pos) odd: ring pairs are assigned to axial positions by truncating division while get_all_ring_pairs_for_segment_axial_pos_num lists none (library only warns 'LORs shifted') (first seen: rings=%d span=%d max_delta=%d ge=%d)\n",
+                       R, c.span, c.max_delta, c.ge ? 1 : 0);
+        else
+          {
+            std::ostringstream s;
+            for (int x : bad)
+              s << " " << x << "[" << q.get_min_ring_difference(x) << "," << q.get_max_ring_difference(x) << ";" << q.get_min_axial_pos_num(x) << ","
+                << q.get_max_axial_pos_num(x) << "]";
+            std::fprintf(orc, "ORACLE-FAIL after changing the sampling the ring pairs assigned to (segment, axial pos) differ from the lists of get_all_ring_pairs_for_segment_axial_pos_num: rings=%d span=%d max_delta=%d ge=%d segments%s\n",
+                         R, c.span, c.max_delta, c.ge ? 1 : 0, s.str().c_str());
+          }
+      }
+    emit_bins(&q, rng, N, R, nbins, !bad.empty() || ax.mismatch, true, 4000);
+  }
+
+  // how to undo a setter call
+  struct Undo
+  {
+    int kind = 0; // 1 min_rd, 2 max_rd, 3 min_ax, 4 max_ax
+    int s = 0, old = 0;
+  };
+
+  void apply_undo(ProjDataInfoCylindricalNoArcCorr& q, const Undo& u)
+  {
+    const char* names[] = { "", "setminrd", "setmaxrd", "setminax", "setmaxax" };
+    switch (u.kind)
+      {
+      case 1:
+        q.set_min_ring_difference(u.old, u.s);
+        break;
+      case 2:
+        q.set_max_ring_difference(u.old, u.s);
+        break;
+      case 3:
+        q.set_min_axial_pos_num(u.old, u.s);
+        break;
+      case 4:
+        q.set_max_axial_pos_num(u.old, u.s);
+        break;
+      default:
+        return;
+      }
+    std::fprintf(ops, "%s %d %d\n", names[u.kind], u.s, u.old);
+    std::fprintf(out, "ok\n");
+  }
+
+  // one random change of the sampling (sorted, disjoint ring-difference ranges are kept); returns false when nothing was changed
+  bool mutate(ProjDataInfoCylindricalNoArcCorr& q, Undo& undo)
+  {
+    const int lo = q.get_min_segment_num(), hi = q.get_max_segment_num();
+    const int kind = rng.range(0, 9);
+    if (kind <= 1)
+      {
+        // set_num_views: all view counts that divide N/2
+        std::vector<int> vs;
+        for (int d = 1; d <= N / 2; ++d)
+          if ((N / 2) % d == 0)
+            vs.push_back(N / 2 / d);
+        const int nv = vs[rng.range(0, (int)vs.size() - 1)];
+        q.set_num_views(nv);
+        std::fprintf(ops, "setviews %d\n", nv);
+        std::fprintf(out, "ok\n");
+        return true;
+      }
+    if (kind == 2)
+      {
+        if (lo == hi)
+          return false;
+        // reduce_segment_range: mostly symmetric (what the utilities do), sometimes any sub-range
+        int a, b;
+        if (rng.range(0, 2) != 0 && -lo == hi)
+          {
+            b = rng.range(0, hi - 1);
+            a = -b;
+          }
+        else
+          {
+            a = rng.range(lo, hi);
+            b = rng.range(a, hi);
+          }
+        q.reduce_segment_range(a, b);
+        std::fprintf(ops, "redseg %d %d\n", a, b);
+        std::fprintf(out, "ok\n");
+        return true;
+      }
+    if (kind <= 5)
+      {
+        // ring differences of one segment: shrink, or grow into ring differences no segment covers
+        const int s = rng.range(lo, hi);
+        const int mn = q.get_min_ring_difference(s), mx = q.get_max_ring_difference(s);
+        const bool upper = rng.coin();
+        int v;
+        if (rng.range(0, 3) == 0)
+          {
+            v = upper ? mx + 1 : mn - 1;
+            const int limit = upper ? (s < hi ? q.get_min_ring_difference(s + 1) - 1 : R - 1) : (s > lo ? q.get_max_ring_difference(s - 1) + 1 : -(R - 1));
+            if (upper ? v > limit : v < limit)
+              return false;
+            clipped = true;
+          }
+        else
+          v = rng.range(mn, mx);
+        undo.kind = upper ? 2 : 1;
+        undo.s = s;
+        undo.old = upper ? mx : mn;
+        if (upper)
+          q.set_max_ring_difference(v, s);
+        else
+          q.set_min_ring_difference(v, s);
+        std::fprintf(ops, "%s %d %d\n", upper ? "setmaxrd" : "setminrd", s, v);
+        std::fprintf(out, "ok\n");
+        touched.insert(s);
+        return true;
+      }
+    if (kind <= 7)
+      {
+        // axial range of one segment
+        const int s = rng.range(lo, hi);
+        const int mn = q.get_min_axial_pos_num(s), mx = q.get_max_axial_pos_num(s);
+        const bool upper = rng.coin();
+        const int v = upper ? mx - rng.range(-1, 2) : mn + rng.range(-1, 2);
+        if (upper ? v < mn : v > mx)
+          return false;
+        undo.kind = upper ? 4 : 3;
+        undo.s = s;
+        undo.old = upper ? mx : mn;
+        if (upper)
+          q.set_max_axial_pos_num(v, s);
+        else
+          q.set_min_axial_pos_num(v, s);
+        std::fprintf(ops, "%s %d %d\n", upper ? "setmaxax" : "setminax", s, v);
+        std::fprintf(out, "ok\n");
+        touched.insert(s);
+        clipped = true;
+        return true;
+      }
+    if (kind == 8 && rng.coin())
+      {
+        // a change that must be refused when the tables are rebuilt: min_ring_difference > max_ring_difference
+        const int s = rng.range(lo, hi);
+        undo.kind = 1;
+        undo.s = s;
+        undo.old = q.get_min_ring_difference(s);
+        const int v = q.get_max_ring_difference(s) + 1;
+        q.set_min_ring_difference(v, s);
+        std::fprintf(ops, "setminrd %d %d\n", s, v);
+        std::fprintf(out, "ok\n");
+        return true;
+      }
+    // tangential range (the detector tables cover -(N/2)+1 .. N/2)
+    const int which = rng.range(0, 2);
+    if (which == 0)
+      {
+        const int n = rng.range(1, N - 1);
+        q.set_num_tangential_poss(n);
+        std::fprintf(ops, "ntang %d\n", n);
+      }
+    else if (which == 1)
+      {
+        const int v = rng.range(-(N / 2) + 1, q.get_max_tangential_pos_num());
+        q.set_min_tangential_pos_num(v);
+        std::fprintf(ops, "setmintang %d\n", v);
+      }
+    else
+      {
+        const int v = rng.range(q.get_min_tangential_pos_num(), N / 2);
+        q.set_max_tangential_pos_num(v);
+        std::fprintf(ops, "setmaxtang %d\n", v);
+      }
+    std::fprintf(out, "%d %d\n", q.get_min_tangential_pos_num(), q.get_max_tangential_pos_num());
+    return true;
+  }
+
+  // one step of the history on q: change the sampling; when the library must refuse the new sampling (documented:
+  // "min_ring_difference is larger than max_ring_difference", "the axial positions do not correspond to the usual
+  // locations between physical rings") check that it does, undo the change (the tables must be rebuilt from the
+  // repaired sampling); then evaluate the property
+  void step(ProjDataInfoCylindricalNoArcCorr& q, int nbins)
+  {
+    Undo undo;
+    const std::set<int> touched0(touched);
+    const bool clipped0 = clipped;
+    if (!mutate(q, undo))
+      return;
+    bool must_refuse = false;
+    for (int s = q.get_min_segment_num(); s <= q.get_max_segment_num(); ++s)
+      {
+        if (q.get_min_ring_difference(s) > q.get_max_ring_difference(s))
+          must_refuse = true;
+        else if (q.get_min_ring_difference(s) != q.get_max_ring_difference(s) && (q.get_min_axial_pos_num(s) + q.get_max_axial_pos_num(s)) % 2 != 0)
+          must_refuse = true;
+      }
+    if (must_refuse)
+      {
+        emit_state(q);
+        ++oracle_checks;
+        if (emit_init(q))
+          oracle_fail("a sampling that must be refused was accepted when the tables were rebuilt (rings=%d span=%d max_delta=%d ge=%d)", R, c.span, c.max_delta, c.ge ? 1 : 0);
+        probe_error_state(q);
+        apply_undo(q, undo);
+        touched = touched0;
+        clipped = clipped0;
+      }
+    check(q, nbins);
+  }
+};
+
+static void
+run_history(const Cfg& c, vh::Rng& rng, bool thorough)
+{
+  if (!c.scanner_name.empty() || !c.geometry.empty() || c.tb > 0)
     return;
   shared_ptr<Scanner> scanner = vh::make_scanner(c.N, c.R, c.tof_bins);
   const int N = c.N;
   shared_ptr<ProjDataInfo> pdi0;
   try
     {
-      pdi0 = vh::make_pdi(scanner, c.span, c.max_delta, c.views, std::max(1, N / 2 - 1), false, c.tof_mash);
+      pdi0 = construct(c, scanner, std::max(1, N / 2 - 1));
     }
   catch (...)
     {
@@ -367,83 +1021,29 @@ run_history(const Cfg& c, vh::Rng& rng)
   shared_ptr<ProjDataInfoCylindricalNoArcCorr> pdi = dynamic_pointer_cast<ProjDataInfoCylindricalNoArcCorr>(pdi0);
   if (!pdi)
     return;
-  std::fprintf(ops, "cfg %d %d %d %d %d %d\n", N, c.R, c.span, c.max_delta, c.views, c.tof_mash);
-  {
-    std::ostringstream s;
-    s << "segs " << pdi->get_min_segment_num() << " :";
-    for (int sg = pdi->get_min_segment_num(); sg <= pdi->get_max_segment_num(); ++sg)
-      s << " " << pdi->get_min_ring_difference(sg) << "," << pdi->get_max_ring_difference(sg) << "," << pdi->get_num_axial_poss(sg);
-    std::fprintf(out, "%s\n", s.str().c_str());
-  }
-  auto probe = [&](ProjDataInfoCylindricalNoArcCorr& q, int n) {
-    for (int k = 0; k < n; ++k)
-      {
-        int d1 = rng.range(0, N - 1), d2 = rng.range(0, N - 1);
-        if (d1 == d2)
-          d2 = (d2 + 1) % N;
-        int v, tp;
-        const bool keep = q.get_view_tangential_pos_num_for_det_num_pair(v, tp, d1, d2);
-        std::fprintf(ops, "dv %d %d\n", d1, d2);
-        std::fprintf(out, "%d %d %d\n", v, tp, keep ? 1 : 0);
-        // ORACLE: the bin found for a pair lists that pair (or its exchange) among its own pairs
-        DetectionPositionPair<> dp;
-        dp.pos1().tangential_coord() = d1;
-        dp.pos2().tangential_coord() = d2;
-        dp.pos1().axial_coord() = 0;
-        dp.pos2().axial_coord() = 0;
-        dp.timing_pos() = 0;
-        Bin b;
-        if (q.get_bin_for_det_pos_pair(b, dp) != Succeeded::yes)
-          continue;
-        ++oracle_checks;
-        bool ok = b.view_num() >= 0 && b.view_num() < q.get_num_views();
-        if (ok && b.tangential_pos_num() >= q.get_min_tangential_pos_num() && b.tangential_pos_num() <= q.get_max_tangential_pos_num())
-          {
-            std::vector<DetectionPositionPair<>> all;
-            q.get_all_det_pos_pairs_for_bin(all, b, true);
-            bool found = false;
-            for (auto& x : all)
-              if ((x.pos1() == dp.pos1() && x.pos2() == dp.pos2()) || (x.pos1() == dp.pos2() && x.pos2() == dp.pos1()))
-                found = true;
-            ok = found;
-          }
-        if (!ok)
-          {
-            ++oracle_fails;
-            if (oracle_fails < 20)
-              std::fprintf(orc, "ORACLE-FAIL after changing the number of views to %d the bin of detector pair (%d,%d) has view %d / does not list the pair\n",
-                           q.get_num_views(), d1, d2, b.view_num());
-          }
-      }
-  };
-  probe(*pdi, 30); // builds the tables with the original sampling
-  // all view counts that divide N/2
-  std::vector<int> vs;
-  for (int d = 1; d <= N / 2; ++d)
-    if ((N / 2) % d == 0)
-      vs.push_back(N / 2 / d);
-  for (int step = 0; step < 3; ++step)
+  emit_cfg(c, N, c.R);
+  emit_segs(pdi.get());
+  std::fprintf(ops, "ntang %d\n", pdi->get_num_tangential_poss());
+  std::fprintf(out, "%d %d\n", pdi->get_min_tangential_pos_num(), pdi->get_max_tangential_pos_num());
+  History h{ c, rng, N, c.R, pdi->get_max_segment_num() };
+  h.check(*pdi, 10); // builds all lazy tables with the original sampling
+  const int nsteps = thorough ? 8 : 6;
+  for (int step = 0; step < nsteps; ++step)
     {
-      const int nv = vs[rng.range(0, (int)vs.size() - 1)];
-      if (rng.coin())
+      if (rng.range(0, 3) == 0)
         {
-          pdi->set_num_views(nv);
-          std::fprintf(ops, "setviews %d\n", nv);
+          // change a clone: the clone follows its own sampling, the original is untouched
+          shared_ptr<ProjDataInfoCylindricalNoArcCorr> cl(dynamic_cast<ProjDataInfoCylindricalNoArcCorr*>(pdi->clone()));
+          History hc(h);
+          std::fprintf(ops, "save\n");
           std::fprintf(out, "ok\n");
-          probe(*pdi, 40);
+          hc.step(*cl, 12);
+          std::fprintf(ops, "restore\n");
+          std::fprintf(out, "ok\n");
+          h.check(*pdi, 8);
         }
       else
-        {
-          shared_ptr<ProjDataInfo> cl(pdi->clone());
-          cl->set_num_views(nv);
-          std::fprintf(ops, "setviews %d\n", nv);
-          std::fprintf(out, "ok\n");
-          probe(*dynamic_pointer_cast<ProjDataInfoCylindricalNoArcCorr>(cl), 40);
-          // and the original is untouched
-          std::fprintf(ops, "setviews %d\n", pdi->get_num_views());
-          std::fprintf(out, "ok\n");
-          probe(*pdi, 20);
-        }
+        h.step(*pdi, 16);
     }
 }
 
@@ -458,6 +1058,7 @@ main(int argc, char** argv)
   ops = std::fopen(argv[3], "w");
   out = std::fopen(argv[4], "w");
   orc = std::fopen((std::string(argv[4]) + ".oracle").c_str(), "w");
+  scratch = argv[4];
   std::vector<Cfg> cfgs;
   // fixed regression configurations (truncated last segment with odd/even parity)
   cfgs.push_back({ 16, 4, 3, 2, 8, 0, -1, "" });
@@ -470,11 +1071,19 @@ main(int argc, char** argv)
       Cfg c;
       c.N = 2 * rng.range(2, thorough ? 40 : 20);
       c.R = rng.range(1, 9);
-      const int kind = rng.range(0, 9);
+      const int kind = rng.range(0, 11);
       c.span = kind < 4 ? 1 : (kind < 8 ? 2 * rng.range(1, 4) + 1 : 2 * rng.range(1, 3));
       c.max_delta = rng.range(0, c.R - 1);
       if (rng.range(0, 2) == 0)
         c.max_delta = c.R - 1;
+      if (kind >= 10)
+        {
+          // ProjDataInfoGE: segment 0 = ring differences -1..1, the others one ring difference each;
+          // max_delta 1 .. R-1, sometimes R (a last segment without axial positions) or 0 (refused)
+          c.ge = true;
+          c.span = 3;
+          c.max_delta = rng.range(0, 7) == 0 ? rng.range(0, 1) * c.R : rng.range(1, std::max(1, c.R - 1));
+        }
       // views: N/2 divided by a divisor
       std::vector<int> divs;
       for (int d = 1; d <= c.N / 2; ++d)
@@ -491,11 +1100,43 @@ main(int argc, char** argv)
             if (c.tof_bins % d == 0)
               od.push_back(d);
           c.tof_mash = od[rng.range(0, (int)od.size() - 1)];
+          if (rng.range(0, 5) == 0)
+            {
+              // an even number of timing positions with an even mashing factor leaving an odd number of TOF bins
+              // (accepted by the constructor, e.g. STIR's test_scanner: 410 timing positions mashed by 2, 10 or 82)
+              c.tof_bins *= 2;
+              c.tof_mash *= 2;
+            }
         }
       cfgs.push_back(c);
     }
-  // the same formulas are copied into the Generic / BlocksOnCylindrical classes (no TOF, no view mashing there)
+  // the same formulas are copied into the Generic / BlocksOnCylindrical classes (no TOF, no view mashing there):
+  // generated block scanners, every span / max_delta
+  const int nblk = thorough ? 60 : 14;
+  for (int k = 0; k < nblk; ++k)
+    {
+      Cfg c;
+      c.tb = rng.range(3, 8);
+      c.tbl = rng.range(1, 2);
+      c.tc = rng.range(1, 4);
+      if ((c.tb * c.tbl * c.tc) % 2 != 0)
+        c.tc += 1;
+      c.ab = rng.range(1, 3);
+      c.ac = rng.range(1, 3);
+      c.gap = rng.coin() ? 0.F : 0.5F;
+      c.N = c.tb * c.tbl * c.tc;
+      c.R = c.ab * c.ac;
+      c.geometry = (k % 3 == 2) ? "Generic" : "BlocksOnCylindrical";
+      const int kind = rng.range(0, 9);
+      c.span = kind < 3 ? 1 : (kind < 8 ? 2 * rng.range(1, 3) + 1 : 2 * rng.range(1, 2));
+      c.max_delta = rng.coin() ? c.R - 1 : rng.range(0, c.R - 1);
+      c.views = c.N / 2;
+      c.tof_mash = 0;
+      c.tof_bins = -1;
+      cfgs.push_back(c);
+    }
   {
+    // predefined block scanner; a predefined cylindrical scanner switched to blocks (refused by Scanner::check_consistency)
     const char* bnames[] = { "SAFIRDualRingPrototype", "ECAT 953" };
     for (int k = 0; k < 2; ++k)
       {
@@ -507,45 +1148,78 @@ main(int argc, char** argv)
         c.geometry = "BlocksOnCylindrical";
         c.N = s->get_num_detectors_per_ring();
         c.R = s->get_num_rings();
-        c.span = 1;
-        c.max_delta = std::min(c.R - 1, 5);
+        c.span = 2 * rng.range(0, 3) + 1;
+        c.max_delta = rng.range(c.span / 2, c.R - 1);
         c.views = c.N / 2;
         c.tof_mash = 0;
         c.tof_bins = -1;
         cfgs.push_back(c);
       }
   }
-  // predefined scanners with their default-ish sampling
-  const char* names_quick[] = { "ECAT 953", "ECAT 931", "GE Advance", "Siemens mMR" };
-  const char* names_thorough[] = { "ECAT 953", "ECAT 931", "ECAT 962", "GE Advance", "Siemens mMR", "GE Discovery 690", "ECAT HRRT", "GE Signa PET/MR", "Siemens mCT" };
+  // predefined scanners: seeded span / max_delta / view mashing / TOF mashing
+  const char* names_quick[] = { "ECAT 953", "ECAT 931", "GE Advance", "Siemens mMR", "GE Discovery 690", "GE Signa PET/MR" };
+  const char* names_thorough[] = { "ECAT 953", "ECAT 931", "ECAT 962", "GE Advance", "Siemens mMR", "GE Discovery 690", "ECAT HRRT", "GE Signa PET/MR", "Siemens mCT", "GE Discovery MI 3 rings", "GE Discovery STE", "ECAT EXACT3D" };
   const char** names = thorough ? names_thorough : names_quick;
-  const int nn = thorough ? 9 : 4;
-  for (int k = 0; k < nn; ++k)
-    {
-      shared_ptr<Scanner> s(Scanner::get_scanner_from_name(names[k]));
-      if (!s || s->get_type() == Scanner::Unknown_scanner)
-        continue;
-      Cfg c;
-      c.scanner_name = names[k];
-      c.N = s->get_num_detectors_per_ring();
-      c.R = s->get_num_rings();
-      c.span = (k % 2) ? 1 : 3;
-      c.max_delta = c.R - 1;
-      c.views = c.N / 2;
-      c.tof_mash = 0;
-      c.tof_bins = -1;
-      cfgs.push_back(c);
-    }
+  const int nn = thorough ? 12 : 6;
+  for (int rep = 0; rep < (thorough ? 3 : 1); ++rep)
+    for (int k = 0; k < nn; ++k)
+      {
+        shared_ptr<Scanner> s(Scanner::get_scanner_from_name(names[k]));
+        if (!s || s->get_type() == Scanner::Unknown_scanner)
+          continue;
+        Cfg c;
+        c.scanner_name = names[k];
+        c.N = s->get_num_detectors_per_ring();
+        c.R = s->get_num_rings();
+        const int kind = rng.range(0, 9);
+        c.span = kind < 2 ? 1 : (kind < 8 ? 2 * rng.range(1, 5) + 1 : 2 * rng.range(1, 3));
+        c.span = std::min(c.span, 2 * c.R - 1);
+        c.max_delta = rng.range(0, 2) == 0 ? c.R - 1 : rng.range(c.span / 2, c.R - 1);
+        if (kind == 9)
+          {
+            c.ge = true;
+            c.max_delta = rng.range(1, c.R - 1);
+          }
+        // view mashing: a small divisor of N/2
+        std::vector<int> divs;
+        for (int d = 1; d <= 8; ++d)
+          if ((c.N / 2) % d == 0)
+            divs.push_back(d);
+        c.views = c.N / 2 / divs[rng.range(0, (int)divs.size() - 1)];
+        c.tof_mash = 0;
+        c.tof_bins = -1;
+        if (s->is_tof_ready())
+          {
+            // odd TOF mashing factors that leave an odd number of TOF bins (the constructor refuses an even number);
+            // the factor need not divide the scanner's number of timing positions
+            const int mx = s->get_max_num_timing_poss();
+            std::vector<int> ms;
+            ms.push_back(0); // non-TOF data of a TOF scanner
+            for (int m = 1; m <= mx; m += 2)
+              if ((mx / m) % 2 == 1)
+                ms.push_back(m);
+            c.tof_mash = ms[rng.range(0, (int)ms.size() - 1)];
+            c.tof_bins = mx;
+          }
+        cfgs.push_back(c);
+      }
   for (auto& c : cfgs)
     {
       try
         {
           run_cfg(c, rng, thorough);
-          run_history(c, rng);
+          run_history(c, rng, thorough);
         }
       catch (std::exception& e)
         {
-          std::fprintf(orc, "ORACLE-FAIL exception in configuration N=%d R=%d span=%d maxdelta=%d views=%d: %s\n", c.N, c.R, c.span, c.max_delta, c.views, e.what());
+          std::fprintf(orc, "ORACLE-FAIL exception in configuration N=%d R=%d span=%d maxdelta=%d views=%d ge=%d geometry=%s: %s\n", c.N, c.R, c.span, c.max_delta, c.views,
+                       c.ge ? 1 : 0, c.geometry.c_str(), e.what());
+          ++oracle_fails;
+        }
+      catch (...)
+        {
+          std::fprintf(orc, "ORACLE-FAIL exception in configuration N=%d R=%d span=%d maxdelta=%d views=%d ge=%d geometry=%s\n", c.N, c.R, c.span, c.max_delta, c.views, c.ge ? 1 : 0,
+                       c.geometry.c_str());
           ++oracle_fails;
         }
     }
@@ -553,5 +1227,6 @@ main(int argc, char** argv)
   std::fclose(ops);
   std::fclose(out);
   std::fclose(orc);
+  std::remove((scratch + ".crystalmap").c_str());
   return 0;
 }
